@@ -142,6 +142,7 @@ def parts(wb):
     if names:
         dn = '<definedNames>' + ''.join(
             f'<definedName name={quoteattr(d["name"])}' + (' hidden="1"' if d.get('hidden') else '')
+            + (f' localSheetId="{d["local"]}"' if d.get('local') is not None else '')      # a name scoped to the sheet with that 0-based index
             + f'>{escape(d["ref"])}</definedName>' for d in names) + '</definedNames>'
     out['xl/workbook.xml'] = (
         HEAD + f'<workbook xmlns="{NS_MAIN}" xmlns:r="{NS_REL}"><sheets>'
